@@ -45,6 +45,11 @@
        test of s.done and close(s.done) are done under s.locker), and
        TestScenarioConcurrentClose checks it on the real server.
        Both were defects of the original tree (DESIGN F28, F21), repaired.
+       A listener whose Close returns an error is a parameter of the model
+       (lis_err): Close and Shutdown remember the error, carry on and return
+       it at the end; the run is the clean run with that one return value
+       changed (C20_listener_close_error; the `life` cases script a listener
+       whose Close fails, with connections in every state).
    RUNTIME ONLY (observed, not proved): Go's scheduler/memory model being
    captured by the interleaving semantics; net.Conn, io.Pipe, channels,
    sync.Mutex/WaitGroup being race free themselves; objects reached THROUGH
@@ -141,7 +146,7 @@ Print Assumptions C20_no_goroutine_left_behind.
 Theorem C20_close_once :
   forall s, reachable s -> done s = false ->
   let s' := fst (ServerLife.step s OClose) in
-  snd (ServerLife.step s OClose) = BRet RNil /\
+  snd (ServerLife.step s OClose) = BRet (ok_ret s) /\
   serving s' = false /\
   (serving s = true -> serve_ret s' = Some RNil) /\
   conns s' = close_all (conns s) /\ Forall (fun c => c <> COpen) (conns s') /\
@@ -153,8 +158,8 @@ Print Assumptions C20_close_once.
 (* Close ends every connection, whatever the order of Close and the
    handlers' registrations (the window between Accept and registration) *)
 Theorem C20_close_ends_every_connection :
-  forall l1 l2,
-  let s := run_st ServerLife.init l1 in
+  forall e l1 l2,
+  let s := run_st (init_e e) l1 in
   done s = false ->
   let s' := run_st (fst (ServerLife.step s OClose)) l2 in
   List.length (conns s') = List.length (conns s) /\
@@ -166,6 +171,58 @@ Theorem C20_close_ends_every_connection :
    open_count s' = 0%nat).
 Proof. exact C20_close_ends_every_connection_lemma. Qed.
 Print Assumptions C20_close_ends_every_connection.
+
+(* A listener whose Close returns an error changes nothing but the error
+   returned: for every operation sequence the run with the failing listener
+   (init_e true) reaches the state of the run with a clean listener - Serve
+   returned the same, the same connections were ended by the server, as many
+   are active, the same Shutdown blocks - and its observations are those of
+   the clean run with the nil of the first Close / Shutdown (returned at once
+   or when the blocked call is released) replaced by the listener's error.
+   [reachable], and with it every theorem of this part, covers both values of
+   the parameter (ok_ret s = the listener's error or nil). *)
+Theorem C20_listener_close_error :
+  forall l,
+  let sf := run_st (init_e true) l in
+  let s := run_st ServerLife.init l in
+  sf = set_err true s /\
+  serving sf = serving s /\ serve_ret sf = serve_ret s /\ done sf = done s /\
+  conns sf = conns s /\ open_count sf = open_count s /\ sd_pending sf = sd_pending s /\
+  snd (ServerLife.run (init_e true) l) = map mark_obs (snd (ServerLife.run ServerLife.init l)) /\
+  ~ In (BRet RListenerErr) (snd (ServerLife.run ServerLife.init l)) /\
+  ~ In (BShutdownRet RListenerErr) (snd (ServerLife.run ServerLife.init l)).
+Proof. exact C20_listener_close_error_lemma. Qed.
+Print Assumptions C20_listener_close_error.
+
+(* in the property's words: Close returns the listener's error AND has ended
+   every registered connection (the ones in the accept window are covered by
+   C20_close_ends_every_connection, which holds for both listeners) ... *)
+Theorem C20_close_despite_listener_error :
+  forall s, reachable s -> done s = false -> lis_err s = true ->
+  let s' := fst (ServerLife.step s OClose) in
+  snd (ServerLife.step s OClose) = BRet RListenerErr /\
+  serving s' = false /\ conns s' = close_all (conns s) /\
+  Forall (fun c => c <> COpen) (conns s') /\
+  forall l o, (o = OClose \/ o = OShutdown) ->
+              snd (ServerLife.step (run_st s' l) o) = BRet RServerClosed.
+Proof. exact C20_close_despite_listener_error_lemma. Qed.
+Print Assumptions C20_close_despite_listener_error.
+
+(* ... and Shutdown with an active connection does not return on the
+   listener's error: it blocks, and returns that error exactly when the last
+   active connection has finished (the context not expiring) *)
+Theorem C20_shutdown_despite_listener_error :
+  forall s, reachable s -> done s = false -> lis_err s = true -> (open_count s > 0)%nat ->
+  let s' := fst (ServerLife.step s OShutdown) in
+  snd (ServerLife.step s OShutdown) = BPending /\
+  forall l, has_expire l = false ->
+    let s'' := run_st s' l in
+    (sd_pending s'' = true /\ (open_count s'' > 0)%nat /\
+     ~ In (BShutdownRet RListenerErr) (snd (ServerLife.run s' l))) \/
+    (sd_pending s'' = false /\ open_count s'' = 0%nat /\
+     In (BShutdownRet RListenerErr) (snd (ServerLife.run s' l))).
+Proof. exact C20_shutdown_despite_listener_error_lemma. Qed.
+Print Assumptions C20_shutdown_despite_listener_error.
 
 (* after Close or Shutdown no connection is taken into service any more *)
 Theorem C20_no_service_after_stop :
@@ -180,7 +237,7 @@ Theorem C20_shutdown :
   serving s' = false /\ (serving s = true -> serve_ret s' = Some RNil) /\
   conns s' = conns s /\
   (forall l r, snd (ServerLife.step (run_st s' l) (OAccept r)) = BSkip) /\
-  (open_count s = 0%nat -> snd (ServerLife.step s OShutdown) = BRet RNil) /\
+  (open_count s = 0%nat -> snd (ServerLife.step s OShutdown) = BRet (ok_ret s)) /\
   ((open_count s > 0)%nat ->
    snd (ServerLife.step s OShutdown) = BPending /\
    (forall l, has_expire l = false ->
@@ -188,7 +245,7 @@ Theorem C20_shutdown :
       (sd_pending s'' = true /\ (open_count s'' > 0)%nat /\
        snd (ServerLife.step s'' OExpire) = BShutdownRet RCtxErr) \/
       (sd_pending s'' = false /\ open_count s'' = 0%nat /\
-       In (BShutdownRet RNil) (snd (ServerLife.run s' l)) /\
+       In (BShutdownRet (ok_ret s)) (snd (ServerLife.run s' l)) /\
        ~ In (BShutdownRet RCtxErr) (snd (ServerLife.run s' l))))) /\
   (forall l o, (o = OClose \/ o = OShutdown) ->
                snd (ServerLife.step (run_st s' l) o) = BRet RServerClosed).
